@@ -218,6 +218,66 @@ def _new_record(crate, path):
     return ok
 
 
+def _split_sig(sig):
+    """parameter types and return type of a `fn(..) -> ..` signature string (bracket-aware)"""
+    i = sig.find('fn(')
+    if i < 0:
+        return [], ''
+    depth, start, params, j = 0, i + 3, [], i + 3
+    while j < len(sig):
+        c = sig[j]
+        if c in '([<':
+            depth += 1
+        elif c in ')]>' and not (c == '>' and sig[j - 1] == '-'):
+            if depth == 0 and c == ')':
+                if sig[start:j].strip():
+                    params.append(sig[start:j].strip())
+                break
+            depth -= 1
+        elif c == ',' and depth == 0:
+            params.append(sig[start:j].strip())
+            start = j + 1
+        j += 1
+    ret = sig[j + 1:].strip()
+    ret = ret[2:].strip() if ret.startswith('->') else ''
+    return params, ret
+
+
+def _array_record(crate, path):
+    """a new record (see _new_record) with two fields of one type that stands where the reference tree has a `[T; 2]`:
+    at the same parameter position (or as the result) of a function both trees have — the per-player pair given field
+    names (`Profile { one, two }`).  Its fields are read as constant indices, its literal as an array."""
+    cache = getattr(crate, '_array_records', None)
+    if cache is None:
+        cache = {}
+        try:
+            crate._array_records = cache
+        except AttributeError:
+            pass
+    if path in cache:
+        return cache[path]
+    ok = False
+    if _new_record(crate, path):
+        v = crate.adts[path][0]
+        ft = v.get('ftys', [])
+        if len(ft) == 2 and ft[0] == ft[1]:
+            import inline
+            sigs = inline.known().get(inline.ref_kind(crate.j) + '_sigs') or {}
+            is_pair = lambda t: t.replace(' ', '').endswith(';2]') and t.lstrip('&').lstrip().startswith('[') or (t.startswith('&') and t.replace(' ', '').endswith(';2]'))
+            for f in crate.j.get('fns', []):
+                rs = sigs.get(f['name'])
+                if not rs or not f.get('sig'):
+                    continue
+                (rp, rr), (np_, nr) = _split_sig(rs), _split_sig(f['sig'])
+                pairs = list(zip(rp, np_)) if len(rp) == len(np_) else []
+                pairs.append((rr, nr))
+                for a, b in pairs:
+                    if is_pair(a) and _adt_of(b) == path:
+                        ok = True
+    cache[path] = ok
+    return ok
+
+
 def _local_adt(crate, name):
     """`name` is a struct / enum defined in the analysed crate itself"""
     adts = getattr(crate, 'adts', None) or {}
@@ -675,6 +735,14 @@ class Fn:
                 nm = p['n'] or str(p['i'])
                 if first_field and base_ty is not None and p['n'] and _new_record(self.crate, _adt_of(base_ty)):
                     nm = str(p['i'])        # a field of a new record type, read by position like a tuple component
+                    if _array_record(self.crate, _adt_of(base_ty)):
+                        # ... or like an element of the per-player pair it stands for
+                        first_field = False
+                        if e[0] == 'agg' and e[1] == 'array' and p['i'] < len(e[2]):
+                            e = e[2][p['i']]
+                        else:
+                            e = ('cidx', e, p['i'], False)
+                        continue
                 first_field = False
                 if e[0] == 'bin' and e[1] in ('Add', 'Sub', 'Mul') and p['i'] == 0:
                     pass   # (value, overflow-flag).0 of a checked integer operation is the value
@@ -872,7 +940,9 @@ class Fn:
         if r == 'agg':
             kd = rv['kind']
             k = kd.get('k')
-            if k == 'adt' and _new_record(self.crate, kd['path']):
+            if k == 'adt' and _array_record(self.crate, kd['path']):
+                kind = 'array'      # ... or the per-player pair it stands for
+            elif k == 'adt' and _new_record(self.crate, kd['path']):
                 kind = 'tuple'      # a struct the reference tree does not have, used as a record: its literal is the tuple of its fields
             elif k == 'adt':
                 kind = 'adt:%s::%s' % (kd['path'], kd['variant'])
